@@ -216,6 +216,66 @@ def run_many(sc):
     return out
 
 
+def run_afcli(sc):
+    """one scenario of AsmFormatCli.tla through the real asm-format command line (files or STDIN, -i, -o, -f, -n)"""
+    import shutil
+    from click.testing import CliRunner
+    from tola.assembly.assembly import Assembly
+    from tola.assembly.fragment import Fragment
+    from tola.assembly.gap import Gap
+    from tola.assembly.scaffold import Scaffold
+    from tola.assembly.scripts import asm_format
+    s = sc["sc"]
+    t = {"tid": sc["tid"], "kind": "afcli", "sc": s, "exit": 0, "exc": "", "where": "", "lines": [], "reprs": [], "nonempty": 0}
+    d = tempfile.mkdtemp(prefix="af-", dir=os.environ.get("VERIF_AGP_ROOT"))
+    try:
+        texts = [fmt(mk_asm(a), "agp" if f == "AGP" else "tpf") for a, f in zip(sc["asms"], sc["infmts"])]
+        args = []
+        stdin = None
+        if s["files"]:
+            for k, (f, text) in enumerate(zip(s["files"], texts), 1):
+                p = os.path.join(d, f"in{k}.{f['ext']}")
+                open(p, "w").write(text)
+                args.append(p)
+        else:
+            stdin = texts[0]
+        if s["i"]:
+            args += ["-i", s["i"]]
+        outp = os.path.join(d, "out." + s["o"]) if s["o"] else None
+        if outp:
+            args += ["-o", outp]
+        if s["f"]:
+            args += ["-f", s["f"]]
+        if s["n"]:
+            args += ["-n", s["n"]]
+        try:
+            res = CliRunner(mix_stderr=False).invoke(asm_format.cli, args, input=stdin)
+        except TypeError:
+            res = CliRunner().invoke(asm_format.cli, args, input=stdin)
+        t["exit"] = res.exit_code
+        if res.exception is not None and not isinstance(res.exception, SystemExit):
+            t["exc"] = type(res.exception).__name__
+        ftxt = open(outp).read() if outp and os.path.exists(outp) else ""
+        stdout = res.stdout if hasattr(res, "stdout") else res.output
+        t["where"] = "file" if ftxt and not stdout else "stdout" if stdout and not ftxt else "both" if ftxt else "none"
+        text = ftxt or stdout
+        t["nonempty"] = 1 if text.strip() else 0
+        if t["exit"] == 0 and not t["exc"]:
+            if text.startswith("Assembly("):
+                parts = ["Assembly(" + x for x in text.split("Assembly(")[1:]]
+                for part in parts:
+                    obj = eval(part, {"Assembly": Assembly, "Scaffold": Scaffold, "Fragment": Fragment, "Gap": Gap})  # noqa: S307 - the tool's own REPR output
+                    pr = proj_asm(obj)
+                    t["reprs"].append({"name": obj.name, "header": pr["header"], "scaffolds": pr["scaffolds"]})
+            elif not text.startswith("Assembly:") and text.endswith("\n"):
+                t["lines"] = matrix(text)
+    except Exception as e:  # noqa: BLE001
+        t["exc"] = t["exc"] or ("harness:" + type(e).__name__)
+    finally:
+        shutil.rmtree(d, ignore_errors=True)
+    return t
+
+
 CORRUPTIONS = [
     ("agp", "drop-last-column", lambda f: f[:-1] if len(f) == 9 else f[:8]),
     ("agp", "drop-column-2", lambda f: f[:1] + f[2:]),
